@@ -817,14 +817,12 @@ impl<'a> Parser<'a> {
         let after = self.check_for_close_paren(end)?;
         Ok((
             after,
-            if if_true == Expr::Empty && if_false == Expr::Empty {
-                inner_condition
-            } else {
-                Expr::Conditional {
-                    condition: Box::new(inner_condition),
-                    true_branch: Box::new(if_true),
-                    false_branch: Box::new(if_false),
-                }
+            // Also when both branches are empty, as in `(?(1)|)`: that always succeeds, unlike the
+            // bare condition `(?(1))`, which was handled above.
+            Expr::Conditional {
+                condition: Box::new(inner_condition),
+                true_branch: Box::new(if_true),
+                false_branch: Box::new(if_false),
             },
         ))
     }
